@@ -399,6 +399,41 @@ def make_cancel_race_strategy(seed):
     return CancelRace
 
 
+def make_nested_market_strategy(seed):
+    """market orders submitted while another market order is being filled: a market entry whose on_open_position
+    closes (or scales in) at market at once - 'before any later candle is processed' must hold for them too"""
+    from jesse.strategies import Strategy
+
+    class NestedMarket(Strategy):
+        def should_long(self):
+            return self.index % 5 == 1
+
+        def should_short(self):
+            return self.index % 5 == 3 and seed % 2 == 0
+
+        def go_long(self):
+            self.buy = 2, self.price
+
+        def go_short(self):
+            self.sell = 2, self.price
+
+        def should_cancel_entry(self):
+            return False
+
+        def on_open_position(self, order):
+            k = (self.index + seed) % 3
+            if k == 0:
+                self.liquidate()                                   # exit at the current price -> MARKET
+            elif k == 1:
+                self.broker.reduce_position_at(1, self.price, self.price)     # partial exit at market, imperative
+                self.stop_loss = 1, self.price * (0.9 if self.is_long else 1.1)
+
+        def update_position(self):
+            if (self.index + seed) % 4 == 0:
+                self.liquidate()
+    return NestedMarket
+
+
 def _watchdog(seconds):
     """a strategy can drive jesse's matching loop into a livelock (a hook that flips the position with a market
     order each time it opens); a run that does not end is dropped and counted, it is not a verdict of C02/C08/C09"""
@@ -434,7 +469,11 @@ def run_vivo(item):
     rec = Recorder(account=True).install()
     try:
         routes = [{'symbol': sym, 'timeframe': item.get('tf', '1m')} for sym in syms]
-        cls = make_cancel_race_strategy(item['policy']['seed']) if item.get('strategy') == 'cancel_race' else None
+        cls = None
+        if item.get('strategy') == 'cancel_race':
+            cls = make_cancel_race_strategy(item['policy']['seed'])
+        elif item.get('strategy') == 'nested_market':
+            cls = make_nested_market_strategy(item['policy']['seed'])
         out = run_backtest(item['policy'], cfg, {sym: raws[sym].copy() for sym in syms}, routes=routes, fast=item['fast'],
                            strategy_cls=cls)
     except Hang:
@@ -492,6 +531,8 @@ def make_liq_strategy(p):
         def _stop(self):
             if p.get('stop') is not None and self.position.qty != 0:
                 self.stop_loss = abs(self.position.qty), p['stop']
+            if p.get('tp') is not None and abs(self.position.qty) > 1:
+                self.take_profit = 1, p['tp']                       # partial: the position stays open
 
         def on_open_position(self, order):
             self._stop()
@@ -511,10 +552,15 @@ def liq_series(p, approach):
         steps.append((P0, P0, max(P0, x), min(P0, x)))
     steps += [(P0, P0, P0, P0)] * 2
     steps += list(approach)
-    last = steps[-1][1]
+    last = steps[-1]['mins'][-1][1] if isinstance(steps[-1], dict) else steps[-1][1]
     steps += [(last, last, last, last)] * 3
     rows, m = [], p['tf']
-    for (o, c, h, l) in steps:
+    for st in steps:
+        if isinstance(st, dict):                 # a step given minute by minute (exactly tf minutes)
+            assert len(st['mins']) == m
+            rows += [list(x) for x in st['mins']]
+            continue
+        (o, c, h, l) = st
         rows.append([o, c, h, l])
         for _ in range(m - 1):
             rows.append([c, c, c, c])
@@ -524,7 +570,7 @@ def liq_series(p, approach):
     return arr
 
 
-def liq_approach(pattern, P0, liq, side):
+def liq_approach(pattern, P0, liq, side, tf=1, tp=None):
     """candles that approach the implementation's own liquidation price `liq` (a float read in pass 1)"""
     P0 = float(P0)
     inf = math.inf if side == 1 else -math.inf           # towards the entry price
@@ -549,10 +595,23 @@ def liq_approach(pattern, P0, liq, side):
         return [cd(P0, P0, P0), (beyond, beyond, max(beyond, far), min(beyond, far))]
     if pattern == 'stay_away':
         return [cd(P0, P0, mid)]
+    if pattern == 'touch_then_partial_tp':
+        # the path runs through the liquidation price first and then fills a partial take-profit on the other
+        # side of the open: the position is still open after matching (long: o -> low = liq -> high = tp = close)
+        return [(P0, tp, max(liq, tp), min(liq, tp))]
+    if pattern == 'gap_inside_chunk':
+        # fast mode, chunk of several minutes: a close->open gap INSIDE the chunk jumps over the liquidation price,
+        # no single minute contains it, the chunk's range does
+        far = beyond - side * 0.5
+        b = (beyond, beyond, max(beyond, far), min(beyond, far))
+        if tf == 1:
+            return [cd(P0, P0, P0), b]
+        return [{'mins': [(P0, P0, P0, P0)] + [b] + [(beyond, beyond, beyond, beyond)] * (tf - 2)}]
     raise ValueError(pattern)
 
 
-LIQ_PATTERNS = ['touch', 'miss', 'jump', 'close_at', 'miss_then_touch', 'gap_over', 'stay_away']
+LIQ_PATTERNS = ['touch', 'miss', 'jump', 'close_at', 'miss_then_touch', 'gap_over', 'stay_away', 'touch_then_partial_tp',
+                'gap_inside_chunk']
 
 
 def run_liq_case(item):
@@ -592,7 +651,13 @@ def run_liq_case(item):
         if p['stop'] <= 0:
             return None, {'exc': None, 'why': 'stop not positive'}
         cls = make_liq_strategy(p)
-    series = liq_series(p, liq_approach(item['pattern'], p['P0'], liq, p['side']))
+    if item['pattern'] == 'touch_then_partial_tp':        # partial take-profit on the winning side of the entry
+        p = dict(p, tp=float(p['P0'] + p['side'] * 0.05 * abs(p['P0'] - liq)), q1=max(2, p['q1']))
+        if p.get('stop') is not None and (p['stop'] - liq) * p['side'] > 0:
+            p['stop'] = None                               # a stop in front of the liquidation price would close first
+        cls = make_liq_strategy(p)
+        item = dict(item, p=p)
+    series = liq_series(p, liq_approach(item['pattern'], p['P0'], liq, p['side'], tf=p['tf'], tp=p.get('tp')))
     rec2, out2 = one(series)
     tr = vivo_trace(item['id'], rec2.ev, series, cfg, 'fast' if item['fast'] else 'step', ['liq'],
                     completed=out2.get('exc') is None)
